@@ -2,6 +2,7 @@
   C11 — collections (and buckets) are isolated from one another.
 -/
 import Rosmar.Proofs.Shape
+import Rosmar.Colls
 namespace Rosmar
 
 /-- **Frame.** A single-row call addressed to collection `c` leaves every other collection exactly as it was:
@@ -54,5 +55,28 @@ example :
     let s3 := (step s2 (.touch "c0" "k" 500)).1
     s3.row? "c1" "k" = s2.row? "c1" "k" ∧ (s3.row? "c0" "k").map (·.exp) = some 1700000500 := by
   decide
+
+/-! ### Dropping and re-creating collections -/
+
+/-- Dropping a collection leaves every other collection exactly as it was… -/
+theorem C11_drop_leaves_other_collections (s : State) (c c' : String) (h : c' ≠ c) : (opDropColl s c).coll? c' = s.coll? c' :=
+  opDropColl_coll?_other s c c' h
+
+/-- …and removes it: whatever it held is gone. -/
+theorem C11_dropped_collection_is_gone (s : State) (c : String) : (opDropColl s c).coll? c = none := opDropColl_gone s c
+
+/-- A collection created after a drop (under the old or another name) starts empty, never written, with an id that no
+collection of the bucket has had (`nextCollId` only grows), and every other collection is as it was. -/
+theorem C11_recreated_collection_is_empty_and_new (s : State) (c : String) (h : s.coll? c = none) :
+    (opMkColl s c).2 = s.nextCollId ∧ (opMkColl s c).1.nextCollId = s.nextCollId + 1 ∧
+    (opMkColl s c).1.colls = s.colls ++ [(c, { id := s.nextCollId, lastCas := 0, docs := [] })] := by
+  unfold opMkColl; rw [h]; exact ⟨rfl, rfl, rfl⟩
+
+/-- A call made through the object of a dropped collection changes no collection (nor the bucket's high-water mark, the
+committed log or the expiry timer): at most the clock has advanced. -/
+theorem C11_calls_on_a_dropped_collection_touch_nothing (s : State) (c : String) (op : Op) :
+    (stepDropped s c op).1.colls = s.colls ∧ (stepDropped s c op).1.lastCas = s.lastCas ∧
+    (stepDropped s c op).1.acked = s.acked ∧ (stepDropped s c op).1.expNext = s.expNext :=
+  ⟨rfl, rfl, rfl, rfl⟩
 
 end Rosmar
